@@ -15,7 +15,11 @@ import sys
 import time
 
 VERIF = os.path.dirname(os.path.dirname(os.path.abspath(__file__)))
-COQ = os.path.join(VERIF, 'coq')
+# development aid (never set by a registered command): evaluate a patched tree (USIM_REPO) in a private copy of the
+# Coq project and write evidence/replays there, so that it cannot disturb checks of the real tree running meanwhile
+SCRATCH = os.environ.get('VERIF_SCRATCH')
+COQ = os.path.join(SCRATCH, 'coq') if SCRATCH else os.path.join(VERIF, 'coq')
+OUT = SCRATCH or VERIF
 DIRS = [('theories', 'Usim'), ('gen', 'UsimGen'), ('props', 'UsimProps')]
 QFLAGS = []
 for d, n in DIRS:
